@@ -5,7 +5,9 @@ after the lock (C07.a); with release-by-unlink the acquisition re-validates that
 still names the locked inode (C07.b); release on every exit and every lock object is
 used as a context manager (C07.c); timeout only after continuous failure (C07.d); the
 semaphore visits all n slots modulo n and gives up only after n tries (C07.e); stale lock
-removal never undercuts the lock timeout (C07.f)."""
+removal never undercuts the lock timeout (C07.f).
+Added in round 4: the sweep of the lock directory tolerates lock files that are released while it
+looks at them (C07.i, shared C08.f)."""
 import ast
 
 from ..engine import rule
